@@ -185,6 +185,27 @@ pub fn block_hash(f: &str, b: u64) -> u64 {
                 h = fnv_u64(h, increase_to_alignment(v as usize) as u64);
             }
         }
+        "tt" => {
+            for v in lo..lo + (1 << 20) {
+                h = fnv_u64(h, crate::ids_fam::sig_tt(v as u32));
+            }
+        }
+        "mat" => {
+            for v in lo..lo + (1 << 20) {
+                h = fnv_u64(h, crate::ids_fam::sig_mat(v as u32));
+            }
+        }
+        "elf" => {
+            let mut probe = crate::ids_fam::ElfProbe::new();
+            for v in lo..lo + (1 << 20) {
+                h = fnv_u64(h, probe.sig(v as u32));
+            }
+        }
+        "cks0" | "cks4" => {
+            for v in lo..lo + (1 << 20) {
+                h = fnv_u64(h, crate::header_fam::sig_cks(v as u32, f == "cks4"));
+            }
+        }
         _ => panic!("unknown block function {}", f),
     }
     h
